@@ -167,10 +167,11 @@ def execTail (cfg : Cfg) (tl : Bool) (a : Nat) (d : Decision) (cls : Option Clas
 theorem tail_rel {cfg : Cfg} (he : cfg.attemptEnd = none) (tl : Bool) {a : Nat} {d : Decision}
     {cls : Option Classification} {exc : Option Exn} {res : Option Nat} {cause : Option Cause} {fr : Bool}
     {orig : Option Exn} {fbf : RState → ExhaustedFields} {we wc : World}
-    (hπ : π we = π wc) (hatt : we.attempts = a) (hd : d = .raise → wc.rs.lastStop.isSome = true)
+    (hπ : π we = π wc) (hatt : we.attempts = a)
+    (hd : d = .raise → ∃ s, wc.rs.lastStop = some s ∧ s ≠ .aborted)
     (hcr : fr = true → wc.rs.lastCause = some .result)
     (hce : fr = false → wc.rs.lastCause = some .exception ∧
-      ∃ e, orig = some e ∧ wc.rs.lastExc = some e ∧ Plain e) :
+      ∃ e, orig = some e ∧ wc.rs.lastExc = some e ∧ OpExn e) :
     ARel a (callTail cfg a d cls exc res cause fr orig fbf wc)
       (execTail cfg tl a d cls exc res cause fr we) := by
   unfold callTail execTail
@@ -259,10 +260,11 @@ theorem ARel.wrap {cfg : Cfg} (he : cfg.attemptEnd = none) (tl : Bool) (a : Nat)
       by_cases hab : e'.isAbort = true
       · rw [if_pos hab]
         obtain ⟨rfl, hls⟩ := h3.resolve henv hab
-        obtain ⟨o, w', q1, q2, q3, q4⟩ :=
+        obtain ⟨o, w', q1, q2, q3, q4, q5⟩ :=
           execAbortExit_noop he tl a .libAbort we (by rw [π_rs h1]; exact hls)
         rw [q1]
-        exact ⟨q2.trans h1, by simp [deliverRelated, q3, q4]⟩
+        exact ⟨q2.trans h1, by simp [deliverRelated, q3, q4],
+          q3, by rw [q5, π_rs h1], Or.inl ⟨rfl, q4⟩⟩
       · rw [if_neg hab]
         exact ⟨h1, rfl, h3⟩
 
@@ -297,11 +299,12 @@ theorem checkCaught_rel {cfg : Cfg} (he : cfg.attemptEnd = none) (tl : Bool) {a 
     · simp only [hab, if_true, pure_run]
       intro henv
       obtain ⟨rfl, hls⟩ := k5.resolve henv hab
-      obtain ⟨o, w', q1, q2, q3, q4⟩ :=
+      obtain ⟨o, w', q1, q2, q3, q4, q5⟩ :=
         execAbortExit_noop he tl a e we1 (by rw [π_rs k3]; exact hls)
       rw [q1]
-      exact ⟨q2.trans k3, by simp [deliverRelated, q3, q4]⟩
-    · simp only [hab, throw_run]
+      exact ⟨q2.trans k3, by simp [deliverRelated, q3, q4],
+        q3, by rw [q5, π_rs k3], Or.inl ⟨rfl, q4⟩⟩
+    · simp only [hab]
       intro _
       exact ⟨k3, rfl, k5⟩
 
@@ -317,7 +320,7 @@ theorem modifyAS_rs {f : AState → AState} {w : World} {u : Unit} {w' : World}
   rfl
 
 theorem excPath_rel {cfg : Cfg} (he : cfg.attemptEnd = none) (tl : Bool) {a : Nat} {e : Exn}
-    {we wc : World} (hπ : π we = π wc) (hatt : we.attempts = a) (hp : Plain e) :
+    {we wc : World} (hπ : π we = π wc) (hatt : we.attempts = a) (hp : OpExn e) :
     ARel a (callExceptionPath cfg a e wc) (execExceptionPath cfg tl a e we) := by
   unfold callExceptionPath execExceptionPath
   apply Sim.bindA (modifyAS_sim _) hπ
@@ -338,7 +341,7 @@ theorem excPath_rel {cfg : Cfg} (he : cfg.attemptEnd = none) (tl : Bool) {a : Na
   have hre4 : we4.rs = wc3.rs := (π_rs q3).trans hr4
   have hatt4 : we4.attempts = a := q4.trans hatt3
   have hce : false = false → wc4.rs.lastCause = some .exception ∧
-      ∃ e', some e = some e' ∧ wc4.rs.lastExc = some e' ∧ Plain e' :=
+      ∃ e', some e = some e' ∧ wc4.rs.lastExc = some e' ∧ OpExn e' :=
     fun _ => ⟨by rw [hr4]; exact f1, e, rfl, by rw [hr4]; exact f2, hp⟩
   by_cases hdr : d.isRaise = true
   · simp only [hdr, if_true]
